@@ -118,8 +118,8 @@ func (b recBucket) Get(key []byte) []byte {
 	}
 	return b.b.Get(key)
 }
-func (b recBucket) Put(key, value []byte) error { b.r.Puts++; return b.b.Put(key, value) }
-func (b recBucket) Delete(key []byte) error     { b.r.Dels++; return b.b.Delete(key) }
+func (b recBucket) Put(key, value []byte) error     { b.r.Puts++; return b.b.Put(key, value) }
+func (b recBucket) Delete(key []byte) error         { b.r.Dels++; return b.b.Delete(key) }
 func (b recBucket) Iter() iter.Seq2[[]byte, []byte] { return b.b.Iter() }
 
 func (r *Rec) Bucket(name []byte) chain.DBBucket {
